@@ -295,6 +295,224 @@ def run_known(rp, kf):
             rp.cov.setdefault("known_witnesses", {})[k["key"]] = {"witness_fails": bool(still)}
 
 
+
+# ------------------------------------------------------------------------------------------------
+# tie: Go SQL() vs Model/ExprPrint.print_expr on reflected real trees; codec model vs escapeStringLiteral / tokenizer
+
+COQ_HEAD = ("From Coq Require Import List String Ascii NArith ZArith.\n"
+            "From GV Require Import Spec.RefGrammar Model.Expr Model.ExprParse Model.ExprPrint.\n"
+            "Import ListNotations.\nLocal Open Scope string_scope.\n")
+PF_TREE = "print_tree"       # the defect switches as the tree has them (known_findings.d/C06.json)
+CF_TREE = "codec_tree"
+
+
+def coq_eval(name, decls, value, timeout=900):
+    body = COQ_HEAD + decls + "\nDefinition results := Eval vm_compute in (%s).\nPrint results.\n" % value
+    ok, out, err = common.coq_cases(name, body, timeout=timeout)
+    if not ok:
+        raise common.StageError("coq-cases", "case file %s failed: %s" % (name, err[-1500:]))
+    return common.parse_nlist(out)
+
+
+def coq_eval_shards(name, items, mk_case, fn, shard=300, decl_type=None):
+    shards = [items[i:i + shard] for i in range(0, len(items), shard)]
+    def one(ix):
+        terms = [mk_case(x) for x in shards[ix]]
+        decls = "Definition cases%s := [\n  %s].\n" % ("" if decl_type is None else " : " + decl_type, ";\n  ".join(terms))
+        return coq_eval("%s_%d" % (name, ix), decls, "map (%s) cases" % fn)
+    res = []
+    with concurrent.futures.ThreadPoolExecutor(max_workers=8) as ex:
+        for r in ex.map(one, range(len(shards))):
+            res += r
+    return res
+
+
+def printable_str(s):
+    return all(32 <= ord(c) < 127 or ord(c) >= 128 for c in s)
+
+
+def coq_gexpr(t):
+    """typed mirror (Model/Expr.v gexpr) of a harness tree; None = node type / shape outside the printer model.  The
+    emission is checked inside Coq: reflect_expr of the term must equal the dump."""
+    if not isinstance(t, dict):
+        return None
+    k = t.get("_")
+    S = G.coq_str
+    def C(x):
+        r = coq_gexpr(x)
+        if r is None:
+            raise KeyError("unmodelled")
+        return r
+    L = lambda l: "[" + "; ".join(C(x) for x in (l or [])) + "]"
+    extra = lambda allowed: set(t) - {"_"} - set(allowed)
+    try:
+        if k == "Identifier" and not extra(["Name", "Table"]):
+            return "(GIdent %s %s)" % (S(t.get("Name", "")), S(t.get("Table", "")))
+        if k == "LiteralValue" and not extra(["Value", "Type"]):
+            v = t.get("Value")
+            if v is not None and not isinstance(v, str): return None
+            return "(GLit %s %s)" % ("None" if v is None else "(Some %s)" % S(v), S(t.get("Type", "")))
+        if k == "BinaryExpression" and not extra(["Left", "Operator", "Right", "Not"]) and "Left" in t:
+            r = t.get("Right")
+            return "(GBinary %s %s %s %s)" % (C(t["Left"]), S(t.get("Operator", "")), "None" if r is None else "(Some %s)" % C(r),
+                                              G.coq_bool(t.get("Not", False)))
+        if k == "UnaryExpression" and not extra(["Operator", "Expr"]) and "Expr" in t:
+            return "(GUnary %d%%N %s)" % (t.get("Operator", 0), C(t["Expr"]))
+        if k == "FunctionCall" and not extra(["Name", "Arguments", "Distinct"]):
+            return "(GFunc %s %s %s None [] [] None)" % (S(t.get("Name", "")), L(t.get("Arguments")), G.coq_bool(t.get("Distinct", False)))
+        if k == "CaseExpression" and not extra(["Value", "WhenClauses", "ElseClause"]):
+            ws = []
+            for w in t.get("WhenClauses", []):
+                if set(w) - {"_", "Condition", "Result"} or "Condition" not in w or "Result" not in w: return None
+                ws.append("(%s, %s)" % (C(w["Condition"]), C(w["Result"])))
+            opt = lambda x: "None" if x is None else "(Some %s)" % C(x)
+            return "(GCase %s [%s] %s)" % (opt(t.get("Value")), "; ".join(ws), opt(t.get("ElseClause")))
+        if k == "CastExpression" and not extra(["Expr", "Type"]) and "Expr" in t:
+            return "(GCast %s %s)" % (C(t["Expr"]), S(t.get("Type", "")))
+        if k == "InExpression" and not extra(["Expr", "List", "Not"]) and "Expr" in t:
+            return "(GIn %s %s None %s)" % (C(t["Expr"]), L(t.get("List")), G.coq_bool(t.get("Not", False)))
+        if k == "BetweenExpression" and not extra(["Expr", "Lower", "Upper", "Not"]) and all(x in t for x in ("Expr", "Lower", "Upper")):
+            return "(GBetween %s %s %s %s)" % (C(t["Expr"]), C(t["Lower"]), C(t["Upper"]), G.coq_bool(t.get("Not", False)))
+        if k == "TupleExpression" and not extra(["Expressions"]):
+            return "(GTuple %s)" % L(t.get("Expressions"))
+        if k == "IntervalExpression" and not extra(["Value"]):
+            return "(GInterval %s)" % S(t.get("Value", ""))
+        if k == "ArrayConstructorExpression" and not extra(["Elements"]):
+            return "(GArray %s None)" % L(t.get("Elements"))
+    except KeyError:
+        return None
+    return None
+
+
+def tie_expressions(rng, tier, items):
+    """expression texts for the printer correspondence"""
+    out = []
+    seen = set()
+    def add(cid, text):
+        if text not in seen and printable_str(text):
+            seen.add(text); out.append((cid, text))
+    for it in items:
+        if "e" in it:
+            add(it["id"], G.text_of(G.Renderer({}).render(0, it["e"])))
+    n = 300 if tier == "quick" else 4000
+    for i in range(n):
+        e = G.rand_expr(rng, rng.choice([2, 3, 5, 8, 14, 25]))
+        if rng.random() < 0.5 and hasattr(G, "with_signs"):
+            e = G.with_signs(rng, e, 0.2)
+        rho = G.rand_rho(rng, e, rng.choice([0.0, 0.2]))
+        try:
+            if G.pdepth(0, e, rho) + 3 > 90: continue
+        except Exception:
+            continue
+        add("tie:%d" % i, G.text_of(G.Renderer(rho).render(0, e)))
+    for i, t in enumerate(TIE_EXTRA):
+        add("tiex:%d" % i, t)
+    return out
+
+
+TIE_EXTRA = [
+    '"select" + "a.b" * t."from"', "a IS NOT NULL AND NOT (b IS NULL)", "NOT EXISTS (SELECT 1)", "a -> 'k' ->> 'j'", "- a * - b", "-(a + b)",
+    "a - -b", "(-a)::int", "x = ANY (SELECT 1)", "f(DISTINCT a, (b OR c) AND d)", "CASE WHEN (a OR b) AND c THEN 1 ELSE 2 END",
+    "(a, b) IN ((1, 2), (3, 4))", "INTERVAL '1 day' + d", "ARRAY[1, a + 2]", "a::numeric(10,2)", "CAST(a AS varchar(20))", "a LIKE 'x' || 'y'",
+    "a NOT ILIKE b", "(a = b) = c", "a = (b = c)", "(a IS NULL) IS NULL", "(a BETWEEN 1 AND 2) = TRUE", "a BETWEEN (b = c) AND d",
+    "'it''s' || 'a\\\\b' || 'line\\nbreak'", "TRUE AND false OR Null", "a AND (b AND c)", "(a AND b) AND c", "a - (b - c)", "a / (b * c)",
+    "a || (b || c)", "NOT (a AND b)", "NOT a AND b", "NOT NOT a", "(NOT a) = b", "$1 + @p", "t.* ", "*",
+]
+
+
+def run_tie_printer(rp, tier, rng, items):
+    exprs = tie_expressions(rng, tier, items)
+    outs = vh_lines("c06expr", [], [{"id": i, "sql": s} for i, s in exprs])
+    cases, unmod_py, rejected, oracle_bad = [], 0, 0, []
+    for (cid, sql), o in zip(exprs, outs):
+        if o.get("panic"):
+            oracle_bad.append((cid, sql, "panic: " + o["panic"][:200])); continue
+        if not o.get("accepted"):
+            rejected += 1; continue
+        if o.get("reparse"):
+            oracle_bad.append((cid, sql, o["reparse"]))
+        g = coq_gexpr(o["tree"])
+        if g is None or not printable_str(o.get("sql_out", "")):
+            unmod_py += 1; continue
+        cases.append((cid, sql, o, g))
+    def mk(c):
+        cid, sql, o, g = c
+        toks = "[" + "; ".join(G.coq_tok(t["ty"], t["lit"], t["n"]) for t in o["tokens"]) + "]"
+        return "(%s, %s, %s)" % (g, G.coq_sx(o["tree"]), toks)
+    res = coq_eval_shards("c06_print", cases, mk, "print_case " + PF_TREE, shard=250, decl_type="list (gexpr * sx * list token)")
+    bad = [(c, r) for c, r in zip(cases, res) if r in (1, 3)]
+    rp.cov["tie_printer_cases"] = len(cases)
+    rp.cov["tie_printer_agree"] = sum(1 for r in res if r == 0)
+    rp.cov["tie_printer_unmodelled"] = sum(1 for r in res if r == 2) + unmod_py
+    rp.cov["tie_printer_inputs_rejected"] = rejected
+    rp.cov["tie_printer_distinct_outputs"] = len({c[2]["sql_out"] for c in cases})
+    return cases, bad, oracle_bad
+
+
+def reserved_candidates():
+    """every word the tokenizer / token converter sources spell as an upper-case literal, plus the tokenizer's keyword table"""
+    import glob
+    words = set()
+    for f in (glob.glob(os.path.join(common.REPO, "pkg/sql/keywords/*.go")) + glob.glob(os.path.join(common.REPO, "pkg/sql/tokenizer/*.go"))
+              + glob.glob(os.path.join(common.REPO, "pkg/sql/parser/*.go")) + glob.glob(os.path.join(common.REPO, "pkg/models/*.go"))):
+        if f.endswith("_test.go"): continue
+        try:
+            txt = open(f, encoding="utf-8", errors="replace").read()
+        except OSError:
+            continue
+        for m in re.finditer(r'"([A-Za-z_]{1,24})"', txt):
+            words.add(m.group(1).upper())
+    return sorted(words)
+
+
+def run_tie_codecs(rp, tier, rng):
+    """string literal / identifier codec: model vs Go text vs what the real tokenizer reads back; implementation-side
+    round-trip oracle on the same cases"""
+    contents = [[b] for b in range(128)]
+    special = [0, 9, 10, 13, 26, 34, 39, 92, 96, 32, 97, 46, 42, 95, 48, 110, 114, 116, 90]
+    contents += [[a, b] for a in special for b in special]
+    n = 300 if tier == "quick" else 5000
+    for _ in range(n):
+        k = rng.randrange(0, 12)
+        contents.append([rng.choice(special) if rng.random() < 0.5 else rng.randrange(0, 128) for _ in range(k)])
+    words = reserved_candidates()
+    idents = [list(w.lower().encode()) for w in words] + [list(w.encode()) for w in words] + [list(w.capitalize().encode()) for w in words]
+    idents += [[b] for b in range(1, 128)] + [[97, b, 98] for b in range(1, 128)] + [[b, 97] for b in range(48, 58)]
+    for _ in range(n // 2):
+        k = rng.randrange(1, 10)
+        idents.append([rng.choice([95, 97, 65, 48, 46, 42, 32, 34, 45, 36, 122]) if rng.random() < 0.7 else rng.randrange(1, 128) for _ in range(k)])
+    objs = [{"id": "l%d" % i, "bytes": c} for i, c in enumerate(contents)] + [{"id": "i%d" % i, "bytes": c} for i, c in enumerate(idents)]
+    outs = vh_lines("c06lit", [], objs)
+    lit_cases, id_cases, oracle_bad = [], [], []
+    L = lambda l: "[" + "; ".join(str(x) for x in l) + "]"
+    for o, c in zip(outs[:len(contents)], contents):
+        lit = o["lit"]
+        back = None if lit.get("tok_err") or lit["ntok"] != 1 else lit["back"] or []
+        lit_cases.append((c, list(lit["text"].encode("utf-8", "surrogateescape")), back))
+        expect_ok = 0 not in c            # known: NUL is dropped (codec switch d_drop_nul)
+        if expect_ok and not (lit["same"] and lit.get("ty") == "TySQuoted"):
+            oracle_bad.append(("literal", c, lit))
+    for o, c in zip(outs[len(contents):], idents):
+        idn = o["ident"]
+        id_cases.append((c, list(idn["text"].encode("utf-8", "surrogateescape"))))
+        raw_special = 46 in c or 42 in c       # '.' and '*' are written raw (switch d_dot_safe; the lone * is all columns)
+        if 10 in c or raw_special:
+            continue
+        if not (idn["same"] and idn.get("ty") in ("TyIdent", "TyDQuoted")):
+            oracle_bad.append(("identifier", c, idn))
+    def mk_l(c):
+        return "(%s, %s, %s)" % (L(c[0]), L(c[1]), "None" if c[2] is None else "(Some %s)" % L(c[2]))
+    r1 = coq_eval_shards("c06_lit", lit_cases, mk_l, "fun c => if lit_case %s c then 0%%N else 1%%N" % CF_TREE, shard=400,
+                         decl_type="list (list nat * list nat * option (list nat))")
+    r2 = coq_eval_shards("c06_ident", id_cases, lambda c: "(%s, %s)" % (L(c[0]), L(c[1])),
+                         "fun c => if ident_case %s c then 0%%N else 1%%N" % PF_TREE, shard=400, decl_type="list (list nat * list nat)")
+    bad = [("literal", c) for c, r in zip(lit_cases, r1) if r] + [("identifier", c) for c, r in zip(id_cases, r2) if r]
+    rp.cov["tie_codec_literal_cases"] = len(lit_cases)
+    rp.cov["tie_codec_identifier_cases"] = len(id_cases)
+    rp.cov["reserved_word_candidates"] = len(words)
+    return bad, oracle_bad
+
+
 # ------------------------------------------------------------------------------------------------
 # the oracle
 
@@ -383,7 +601,11 @@ def run_oracle(rp, tier, rng, kf):
     return items, new_groups, known_groups
 
 
-THEOREMS = []
+THEOREMS = ["Props.C06.C06_print_is_render", "Props.C06.C06_print_parse_expr", "Props.C06.C06_format_canonical",
+            "Props.C06.C06_format_idempotent", "Props.C06.C06_literal_roundtrip", "Props.C06.C06_ident_roundtrip",
+            "Props.C06.C06_refuted_no_parens", "Props.C06.C06_refuted_is_not_null_lost", "Props.C06.C06_refuted_reserved_raw",
+            "Props.C06.C06_refuted_dot_safe", "Props.C06.C06_refuted_ctrlz_escape", "Props.C06.C06_refuted_triple_quote",
+            "Props.C06.C06_refuted_drop_nul"]
 
 
 def run(tier):
@@ -393,10 +615,23 @@ def run(tier):
     try:
         with common.Lock():
             common.stage_harness()
+            ok_inst, ok_props, _, logs = common.coq_stage(rp, ["theories/Proofs/ExprPrintP.vo"], "theories/Props/C06.v", THEOREMS)
+            if not ok_inst:
+                ok_make, log_make = common.coq_make(["theories/Model/ExprPrint.vo"])
+                if not ok_make:
+                    raise common.StageError("coq-model", log_make[-2000:])
     except common.StageError as e:
         return common.stage_fail(rp, e)
+    if not (ok_inst and ok_props):
+        rp.violation({"kind": "proof", "theorem": "Proofs/ExprPrintP.v / Props/C06.v", "log": (logs["inst"] + logs["props"])[-3000:]},
+                     "props_c06", no_input=True)
+    rp.assumptions = ["lexing (text -> tokens) is C04's theorem; per run the Go SQL() text is tokenized with the real tokenizer + converter and compared with the printer model's token list",
+                      "theorems cover the expression sub-surface `proved` of C03 with printable names (Props/C06.v); function calls, CASE, tuples, sub-queries, every statement printer and the Format / CLI layouts are covered by the oracle and the printer correspondence only",
+                      "byte-level codec models (string literal, quoted identifier) are ASCII: the real reader also normalises typographic quotes; names are compared byte-wise, unicode.IsLetter is taken as true for bytes >= 128"]
     try:
         items, new_groups, known_groups = run_oracle(rp, tier, rng, kf)
+        pcases, pbad, poracle = run_tie_printer(rp, tier, rng, items)
+        cbad, coracle = run_tie_codecs(rp, tier, rng)
         run_known(rp, kf)
     except common.StageError as e:
         return common.stage_fail(rp, e)
@@ -406,7 +641,24 @@ def run(tier):
         rp.violation(dict(kind="roundtrip", sql=g["minimal"], config=g["config"], signature=g["signature"], count=g["count"],
                           failure=g["failure"], first_input=g["first_input"]),
                      "rt_%s_%s_%s_%s_%d" % (tuple(g["signature"]) + (new_groups.index(g),)))
-    rp.cov["evaluations"] = rp.cov.get("serialisations_checked", 0)
+    # expression-level oracle of the tie inputs (independent of the model)
+    poracle_new = [x for x in poracle if not any(k["status"] == "known" and k["signature"].get("expr_shape") and re.search(k["signature"]["expr_shape"], x[1]) for k in kf)]
+    rp.obligation("oracle: SQL() of every parsed tie expression re-parses to the same expression tree", not poracle_new, "%d failures" % len(poracle_new))
+    for cid, sql, why in poracle_new[:5]:
+        rp.violation(dict(kind="expr", sql=sql, why=why), "expr_" + re.sub(r"\W+", "_", cid))
+    rp.obligation("tie: Go SQL() tokens = Model/ExprPrint.print_expr on the reflected real tree", not pbad, "%d disagreements" % len(pbad))
+    for (cid, sql, o, g), r in pbad[:5]:
+        failing = bool(o.get("reparse"))
+        rp.violation(dict(kind="expr" if failing else "correspondence", broken="ExprPrint.print_expr vs SQL()" if r == 1 else "typed mirror emission vs dump",
+                          sql=sql, sql_out=o.get("sql_out"), tokens=o.get("tokens"), why=o.get("reparse")),
+                     "print_" + re.sub(r"\W+", "_", cid), no_input=not failing)
+    rp.obligation("tie: codec models = escapeStringLiteral / safeIdentifier text and what the tokenizer reads back", not cbad, "%d disagreements" % len(cbad))
+    for kind, c in cbad[:4]:
+        rp.violation(dict(kind="correspondence", broken="codec model vs Go (%s)" % kind, case=c), "codec_%s_%d" % (kind, cbad.index((kind, c))), no_input=True)
+    rp.obligation("oracle: string literals and identifiers written by SQL() are read back by the tokenizer with the same content", not coracle, "%d failures" % len(coracle))
+    for kind, c, got in coracle[:4]:
+        rp.violation(dict(kind="codec", what=kind, bytes=c, got=got), "codec_oracle_%s_%d" % (kind, coracle.index((kind, c, got))))
+    rp.cov["evaluations"] = rp.cov.get("serialisations_checked", 0) + len(pcases)
     rp.cov["distinct_nontrivial"] = len({it["sql"] for it in items if it["out"].get("accepted") and len(it["out"].get("types", [])) >= 4})
     rp.cov["rule"] = "every (outer operator, slot, inner operator) expression x parenthesisation variant, random reference expressions in four clause positions, model statements of the C03 surface, sqlgen statements, repository corpus, special statements; x serialiser configurations (pairwise-covering quick / all thorough)"
     rp.cov["samples"] = [it["sql"][:200] for it in items[:2]] + [it["sql"][:200] for it in items if it["src"] == "model-stmt"][:2]
@@ -423,6 +675,16 @@ def replay(path):
         if bad and bad is not True:
             print("  ", json.dumps(bad[0])[:500])
         return 1 if bad else 0
+    if r.get("kind") == "expr":
+        o = vh_lines("c06expr", [], [{"id": "r", "sql": r["sql"]}])[0]
+        bad = (not o.get("accepted")) or bool(o.get("reparse")) or bool(o.get("panic"))
+        print("replay: %s -> %s" % (r["sql"][:200], "STILL FAILS (%s)" % (o.get("reparse") or o.get("panic") or "rejected") if bad else "holds"))
+        return 1 if bad else 0
+    if r.get("kind") == "codec":
+        o = vh_lines("c06lit", [], [{"id": "r", "bytes": r["bytes"]}])[0]
+        side = o["lit" if r.get("what") == "literal" else "ident"]
+        print("replay: %s %s -> %s" % (r.get("what"), r["bytes"], "holds" if side["same"] else "STILL FAILS"))
+        return 0 if side["same"] else 1
     print("replay: no implementation input in this file (%s)" % r.get("kind"))
     return 1
 
